@@ -514,16 +514,38 @@ class CFG:
         self._flag_cache = consts - banned
         return self._flag_cache
 
-    def _bindings(self, n, flags):
-        """{flag: ('c', value) | None} set when node n completes."""
+    def _bindings(self, n, flags, env=None):
+        """{flag: ('c', value) | None} set when node n completes (env: the
+        constants the flags hold on this path, for `x = a or b`)."""
         st = n.ast
         out = {}
+
+        def known(v):
+            """('c', value) when v is a constant, or an and / or / not of
+            flags whose value is known on this path; else None."""
+            if isinstance(v, ast.Constant):
+                return ('c', v.value)
+            if env is None:
+                return None
+            if isinstance(v, ast.Name) and v.id in env:
+                return env[v.id]
+            if isinstance(v, ast.UnaryOp) and isinstance(v.op, ast.Not):
+                k = known(v.operand)
+                return ('c', not k[1]) if k is not None else None
+            if isinstance(v, ast.BoolOp):
+                ks = [known(x) for x in v.values]
+                absorbing = isinstance(v.op, ast.Or)
+                if any(k is not None and bool(k[1]) == absorbing
+                       for k in ks):
+                    return ('c', absorbing)
+                if all(k is not None for k in ks):
+                    return ('c', not absorbing)
+            return None
         if n.kind == 'done' and isinstance(st, ast.Assign):
             for t in st.targets:
                 for el, v in _pairs(t, st.value):
                     if isinstance(el, ast.Name) and el.id in flags:
-                        out[el.id] = ('c', v.value) \
-                            if isinstance(v, ast.Constant) else None
+                        out[el.id] = known(v)
                     elif isinstance(el, ast.Starred) and \
                             isinstance(el.value, ast.Name) and \
                             el.value.id in flags:
@@ -606,7 +628,7 @@ class CFG:
                                  use_exc=use_exc)
             n = self.nodes[a]
             env = dict(envt)
-            upd = self._bindings(n, flags)
+            upd = self._bindings(n, flags, env)
             if upd:
                 for k, v in upd.items():
                     if v is None:
